@@ -720,10 +720,16 @@ def main():
         from translate_asserted import emit_asserted  # noqa
 
         na = emit_asserted(outdir)
+        from translate_graph import emit_graph  # noqa
+
+        ng = emit_graph(outdir)
+        from translate_search import emit_search  # noqa
+
+        nsr = emit_search(outdir)
     except TranslateError as e:
         print(str(e))
         sys.exit(2)
-    print(f"translate: {nr} parser rules, {nc} instruction classes, {nl} leaf functions, {nk} key/index classification functions, {ns} wrapper functions, {na} condition-combination functions -> {outdir}")
+    print(f"translate: {nr} parser rules, {nc} instruction classes, {nl} leaf functions, {nk} key/index classification functions, {ns} wrapper functions, {na} condition-combination functions, {ng} global-graph/neighbourhood functions, {nsr} path-search functions -> {outdir}")
 
 
 if __name__ == "__main__":
